@@ -175,7 +175,16 @@ impl Environment {
                     t.generalize(dtype_variables);
                 }
                 IdentifierKind::Function(signature, _) => {
-                    signature.fn_type.generalize(dtype_variables);
+                    // declared type parameters first, in the declared order (see
+                    // `TypeScheme::instantiate_for_printing`)
+                    let declared: Vec<TypeVariable> = signature
+                        .type_parameters
+                        .iter()
+                        .map(|(_, name, _)| TypeVariable::new(name.as_str()))
+                        .collect();
+                    signature
+                        .fn_type
+                        .generalize_with_leading(dtype_variables, &declared);
                 }
                 IdentifierKind::Predefined(t) => {
                     t.generalize(dtype_variables);
